@@ -65,18 +65,54 @@ Fixpoint target_names (t : expr) : res (list ident) :=
   | _ => fail ERuntime
   end.
 
+(* PendingLambda.__init__: the targets of the assignment expressions that belong to a lambda body: everything below
+   the body except the bodies of nested lambdas (their default values do belong to it) *)
+Fixpoint walrus_names (e : expr) {struct e} : list ident :=
+  let wl := fun l => flat_map walrus_names l in
+  let wo := fun (o : option expr) => match o with Some x => walrus_names x | None => [] end in
+  let wg := fun (gs : list comprehension) =>
+    flat_map (fun g => match g with (t, i, ifs, _) => walrus_names t ++ walrus_names i ++ flat_map walrus_names ifs end) gs in
+  match e with
+  | Name _ | Constant _ | Other _ => []
+  | NamedExpr t v => t :: walrus_names v
+  | ListComp x gs | SetComp x gs | GeneratorExp x gs => walrus_names x ++ wg gs
+  | DictComp k v gs => walrus_names k ++ walrus_names v ++ wg gs
+  | JoinedStr vs | BoolOp _ vs | EList vs | ETuple vs | ESet vs => wl vs
+  | FormattedValue v _ f => walrus_names v ++ wo f
+  | Starred v | UnaryOp _ v | Attribute v _ | YieldFrom v | Await v => walrus_names v
+  | BinOp l _ r => walrus_names l ++ walrus_names r
+  | EDict ks vs => flat_map wo ks ++ wl vs
+  | Compare l _ cs => walrus_names l ++ wl cs
+  | Subscript v sl => walrus_names v ++ walrus_names sl
+  | Slice a b c => wo a ++ wo b ++ wo c
+  | Call f args kws => walrus_names f ++ wl args ++ flat_map (fun kw => walrus_names (snd kw)) kws
+  | Lambda _ _ _ _ kd _ de _ => flat_map wo kd ++ wl de
+  | IfExp t b o => walrus_names t ++ walrus_names b ++ walrus_names o
+  | Yield v => wo v
+  end.
+
+Definition opt_list (o : option ident) : list ident := match o with Some x => [x] | None => [] end.
+
 Section Transf.
   Variable n : nsp.
 
-  (* [comp]: target names of the enclosing comprehensions being transformed *)
-  Fixpoint transf (comp : list ident) (e : expr) {struct e} : res expr :=
-    let tl := fun c l => rmap (transf c) l in
-    let topt := fun c (o : option expr) =>
-      match o with Some x => let! y := transf c x in ret (Some y) | None => ret None end in
-    let tgens := fun c (gs : list comprehension) =>
-      rmap (fun g => match g with (t, i, ifs, a) =>
-              let! t' := transf c t in let! i' := transf c i in let! ifs' := rmap (transf c) ifs in
-              ret (t', i', ifs', a) end) gs in
+  (* [bd]: names bound by the lambdas / comprehensions whose body contains the expression; [inn]: whether there is one *)
+  Fixpoint transf (bd : list ident) (inn : bool) (e : expr) {struct e} : res expr :=
+    let tl := fun c i l => rmap (transf c i) l in
+    let topt := fun c i (o : option expr) =>
+      match o with Some x => let! y := transf c i x in ret (Some y) | None => ret None end in
+    (* generators in order: iterable (the first one in the enclosing scope), target, conditions *)
+    let tgens := fun (c : list ident) (gs : list comprehension) =>
+      (fix go (gs : list comprehension) (first : bool) : res (list comprehension) :=
+         match gs with
+         | [] => ret []
+         | (t, i, ifs, a) :: r =>
+             let! i' := (if first then transf bd inn i else transf c true i) in
+             let! t' := transf c true t in
+             let! ifs' := rmap (transf c true) ifs in
+             let! r' := go r false in
+             ret ((t', i', ifs', a) :: r')
+         end) gs true in
     let gen_names := fun (gs : list comprehension) =>
       (fix go (gs : list comprehension) : res (list ident) :=
          match gs with
@@ -86,57 +122,60 @@ Section Transf.
              else let! a := target_names t in let! b := go r in ret (a ++ b)
          end) gs in
     match e with
-    | Name i => get_load_name n comp i
+    | Name i => get_load_name n bd inn i
     | NamedExpr t v =>
-        let! v' := transf comp v in
+        let! v' := transf bd inn v in
+        if mem t bd then ret (NamedExpr t v')            (* a local variable of the enclosing lambda *)
+        else
         let! r := get_assign n t v' in
         match r with
         | NamedExpr _ _ => ret r
-        | _ => ret (Subscript (EList [r; Name t]) (cint (-1)))
+        | _ => let! ld := get_load_assigned n t in ret (Subscript (EList [r; ld]) (cint (-1)))
         end
     | ListComp x gs =>
-        let! ns := gen_names gs in let c := ns ++ comp in
-        let! x' := transf c x in let! gs' := tgens c gs in ret (ListComp x' gs')
+        let! ns := gen_names gs in let c := ns ++ bd in
+        let! gs' := tgens c gs in let! x' := transf c true x in ret (ListComp x' gs')
     | SetComp x gs =>
-        let! ns := gen_names gs in let c := ns ++ comp in
-        let! x' := transf c x in let! gs' := tgens c gs in ret (SetComp x' gs')
+        let! ns := gen_names gs in let c := ns ++ bd in
+        let! gs' := tgens c gs in let! x' := transf c true x in ret (SetComp x' gs')
     | GeneratorExp x gs =>
-        let! ns := gen_names gs in let c := ns ++ comp in
-        let! x' := transf c x in let! gs' := tgens c gs in ret (GeneratorExp x' gs')
+        let! ns := gen_names gs in let c := ns ++ bd in
+        let! gs' := tgens c gs in let! x' := transf c true x in ret (GeneratorExp x' gs')
     | DictComp k v gs =>
-        let! ns := gen_names gs in let c := ns ++ comp in
-        let! k' := transf c k in let! v' := transf c v in let! gs' := tgens c gs in ret (DictComp k' v' gs')
+        let! ns := gen_names gs in let c := ns ++ bd in
+        let! gs' := tgens c gs in let! k' := transf c true k in let! v' := transf c true v in ret (DictComp k' v' gs')
     | Constant c => ret (Constant c)
-    | JoinedStr vs => let! vs' := tl comp vs in ret (JoinedStr vs')
-    | FormattedValue v c f => let! v' := transf comp v in let! f' := topt comp f in ret (FormattedValue v' c f')
-    | Starred v => let! v' := transf comp v in ret (Starred v')
-    | BinOp l o r => let! l' := transf comp l in let! r' := transf comp r in ret (BinOp l' o r')
-    | BoolOp o vs => let! vs' := tl comp vs in ret (BoolOp o vs')
-    | UnaryOp o v => let! v' := transf comp v in ret (UnaryOp o v')
-    | EList l => let! l' := tl comp l in ret (EList l')
-    | ETuple l => let! l' := tl comp l in ret (ETuple l')
-    | ESet l => let! l' := tl comp l in ret (ESet l')
-    | EDict ks vs => let! ks' := rmap (topt comp) ks in let! vs' := tl comp vs in ret (EDict ks' vs')
-    | Compare l ops cs => let! l' := transf comp l in let! cs' := tl comp cs in ret (Compare l' ops cs')
-    | Attribute v a => let! v' := transf comp v in ret (Attribute v' a)
-    | Subscript v s => let! v' := transf comp v in let! s' := transf comp s in ret (Subscript v' s')
-    | Slice a b c => let! a' := topt comp a in let! b' := topt comp b in let! c' := topt comp c in ret (Slice a' b' c')
+    | JoinedStr vs => let! vs' := tl bd inn vs in ret (JoinedStr vs')
+    | FormattedValue v c f => let! v' := transf bd inn v in let! f' := topt bd inn f in ret (FormattedValue v' c f')
+    | Starred v => let! v' := transf bd inn v in ret (Starred v')
+    | BinOp l o r => let! l' := transf bd inn l in let! r' := transf bd inn r in ret (BinOp l' o r')
+    | BoolOp o vs => let! vs' := tl bd inn vs in ret (BoolOp o vs')
+    | UnaryOp o v => let! v' := transf bd inn v in ret (UnaryOp o v')
+    | EList l => let! l' := tl bd inn l in ret (EList l')
+    | ETuple l => let! l' := tl bd inn l in ret (ETuple l')
+    | ESet l => let! l' := tl bd inn l in ret (ESet l')
+    | EDict ks vs => let! ks' := rmap (topt bd inn) ks in let! vs' := tl bd inn vs in ret (EDict ks' vs')
+    | Compare l ops cs => let! l' := transf bd inn l in let! cs' := tl bd inn cs in ret (Compare l' ops cs')
+    | Attribute v a => let! v' := transf bd inn v in ret (Attribute v' a)
+    | Subscript v s => let! v' := transf bd inn v in let! s' := transf bd inn s in ret (Subscript v' s')
+    | Slice a b c => let! a' := topt bd inn a in let! b' := topt bd inn b in let! c' := topt bd inn c in ret (Slice a' b' c')
     | Call f args kws =>
-        let! f' := transf comp f in let! args' := tl comp args in
-        let! kws' := rmap (fun kw => let! v := transf comp (snd kw) in ret (fst kw, v)) kws in
+        let! f' := transf bd inn f in let! args' := tl bd inn args in
+        let! kws' := rmap (fun kw => let! v := transf bd inn (snd kw) in ret (fst kw, v)) kws in
         ret (Call f' args' kws')
     | Lambda po ar va ko kd kw de body =>
-        (* fields in AST order: args (kw_defaults, then defaults), then body *)
-        let! kd' := rmap (topt comp) kd in
-        let! de' := tl comp de in
-        let! body' := transf comp body in ret (Lambda po ar va ko kd' kw de' body')
-    | IfExp t b o => let! t' := transf comp t in let! b' := transf comp b in let! o' := transf comp o in ret (IfExp t' b' o')
+        (* fields in AST order: args (kw_defaults, then defaults) in the enclosing scope, then the body in its own *)
+        let! kd' := rmap (topt bd inn) kd in
+        let! de' := tl bd inn de in
+        let c := po ++ ar ++ ko ++ opt_list va ++ opt_list kw ++ walrus_names body ++ bd in
+        let! body' := transf c true body in ret (Lambda po ar va ko kd' kw de' body')
+    | IfExp t b o => let! t' := transf bd inn t in let! b' := transf bd inn b in let! o' := transf bd inn o in ret (IfExp t' b' o')
     | Yield _ | YieldFrom _ | Await _ => fail ERuntime     (* generators / coroutines are refused *)
     | Other k => ret (Other k)
     end.
 End Transf.
 
-Definition tr (n : nsp) (e : expr) : res expr := transf n [] e.
+Definition tr (n : nsp) (e : expr) : res expr := transf n [] false e.
 
 (* ---------- structural predicates replacing the counters ---------- *)
 Definition is_interrupt (s : stmt) : bool :=
@@ -323,7 +362,7 @@ Definition lower_augassign (n : nsp) (p : path) (target : expr) (op : binop) (va
   let tmp := ol "augass" (path_str p) in
   match target with
   | Name i =>
-      let! t := get_load_name n [] i in
+      let! t := get_load_name n [] false i in
       let! fb := get_assign n i (BinOp t op v) in
       let! st := get_assign n i (call (Attribute t (aug_op_name op)) [v]) in
       ret [IfExp (call (Name "hasattr") [t; cstr (aug_op_name op)]) st fb]
@@ -571,7 +610,7 @@ Section Stmts.
                 let meta := match rev (filter is_meta kws') with kw :: _ => snd kw | [] => Name "type" end in
                 let! create := get_assign n name
                                  (Call meta [cstr name; ETuple bases'; EDict [] []] (filter (fun kw => negb (is_meta kw)) kws')) in
-                let! load1 := get_load_name n [] name in
+                let! load1 := get_load_name n [] false name in
                 let cd := ol "classnsp" (ncode (n_id cn)) in
                 let loader := ol "loader" (path_str p) in
                 let class_body := [NamedExpr "__class__" load1; NamedExpr cd (EDict [] [])] ++ b' ++ [Name cd] in
